@@ -299,15 +299,7 @@ def handle (line : String) : String :=
     if v = "e" then "st=failed gerr=nolayers gcalls=- gx=0 gn=0 sgate=nolayers"
     else if v = "l" || v = "d" then
       let rep := scanReply '1' nfx roots sts dets
-      if rep = "bad-op" then rep else
-      -- MIRRORS A RECORDED DEFECT (C20/scancontainer-purl-less-package-panics): after the scan, trace.PopulateLayerDetails calls
-      -- pkg.Extractor.ToPURL(pkg).String() for every package a filesystem extractor produced; a nil purl is dereferenced
-      let purlLess := match nfx.toNat?, parseRoot roots with
-        | some n, some files => files.any fun f => f.exts.any (· < n) && f.pkgs.any (·.isNone)
-        | _, _ => false
-      if purlLess then "panic " ++ (" ".intercalate ((rep.splitOn " ").filter fun kv => kv.startsWith "s" && !kv.startsWith "st=")) ++ " wf=" ++
-        (((rep.splitOn " ").find? (·.startsWith "wf=")).map (fun kv => (kv.drop 3).toString)).getD "0" ++ " cons=1 gerr=- sgate=-"
-      else rep ++ " gerr=- sgate=-"
+      if rep = "bad-op" then rep else rep ++ " gerr=- sgate=-"
     else "bad-op"
   | ["gate", flags, nfx, roots, sts, dets] =>
     match flags.toList with
